@@ -89,7 +89,26 @@ let parse_out (s : string) : out option =
     end
   with _ -> None
 
-let pat_of s = if s = "-" then [] else List.init (String.length s) (fun i -> s.[i] = 'F')
+(* iterator patterns: F/B = next()/next_back() with the result reported; f/b = the same step whose result the adaptor
+   (nth / nth_back, hence skip and step_by) discards at once: not reported, and for an owning iterator dropped on the spot *)
+let last_mask : bool list ref = ref []
+let pat_of s = if s = "-" then (last_mask := []; []) else begin
+    last_mask := List.init (String.length s) (fun i -> s.[i] = 'f' || s.[i] = 'b');
+    List.init (String.length s) (fun i -> s.[i] = 'F' || s.[i] = 'f') end
+(* what the caller sees of a run whose model outcome is (items, events): discarded items vanish from the result; when
+   the iterator owns the entries (owning = Some kind: 0 pairs, 1 keys, 2 values) their pairs count as dropped *)
+let mask_items (mask : bool list) (owning : int option) (o : out) (evs : events) : out * events =
+  match o with
+  | OItems l when List.exists (fun x -> x) mask && List.length l = List.length mask ->
+    let kept = List.filteri (fun i _ -> not (List.nth mask i)) l in
+    let gone = List.filteri (fun i _ -> List.nth mask i) l in
+    let extra = (match owning with
+        | None -> []
+        | Some kind -> List.concat_map (function
+            | Some ((k : key), (v : val0)) -> (if kind = 1 then [k.ktok] else if kind = 2 then [v.vtok] else [k.ktok; v.vtok])
+            | None -> []) gone) in
+    (OItems kept, { evs with e_dropped = evs.e_dropped @ extra })
+  | _ -> (o, evs)
 
 type xop =
   | Plain of op * int * bool      (* model op, item kind for printing, is debug *)
@@ -432,7 +451,12 @@ let () =
             | None ->
            (match xop with
             | Plain (p, kind, dbg) ->
-              let run (t, ru) al = stepA !e !vsz variant pre.st p { o_tomb = n_of_int t; o_reuse = ru; o_alloc = al } in
+              let step_mask = !last_mask in
+              let masked r = (match r, p with
+                  | Some ((s2, o2), evs2), IterOp _ -> let (o3, e3) = mask_items step_mask None o2 evs2 in Some ((s2, o3), e3)
+                  | Some ((s2, o2), evs2), DrainOp _ -> let (o3, e3) = mask_items step_mask (Some 0) o2 evs2 in Some ((s2, o3), e3)
+                  | _ -> r) in
+              let run (t, ru) al = masked (stepA !e !vsz variant pre.st p { o_tomb = n_of_int t; o_reuse = ru; o_alloc = al }) in
               let alloc_ok = not (match rest with ["try_reserve"; _; "fail"] -> true | _ -> false) in
               let matches r = match r with Some ((s', _), _) -> Z.equal (z_of_n (capacity s'.tb)) (z_of_n post.cap) && Z.equal (z_of_n s'.tb.nb) (z_of_n post.st.tb.nb) | None -> false in
               let cands = cands_upto (List.length pre.st.ents) in   (* every erasure of this step may leave a tombstone *)
@@ -495,7 +519,7 @@ let () =
                         | _ -> N0) in
                     let oB = { ob = { o_tomb = n_of_int (fst chosen_c); o_reuse = snd chosen_c; o_alloc = alloc_ok }; ob_addr = new_addr; ob_moves = moved } in
                     let b0 = { bg = g0; bcur = pre.st.cur; bmax = pre.st.maxs; btb = pre.st.tb } in
-                    let rb = stepB !e !vsz b0 p oB in
+                    let rb = masked (stepB !e !vsz b0 p oB) in
                     (match rb with
                      | Some ((b', o'), evs') ->
                        (* the refinement theorem, observed: same result, same events, same abstract state as Layer A *)
@@ -596,7 +620,8 @@ let () =
               chk "drops" (sorted_n evs.e_dropped = sorted_n post.dropped);
               chk "hashes_le" (Z.equal (z_of_n post.hashes) Z.zero)
             | XIntoIter (kind, pt, f) ->
-              let (o, evs) = do_into_iter pre.st (n_of_int kind) pt f in
+              let step_mask = !last_mask in
+              let (o, evs) = (let (o0, e0) = do_into_iter pre.st (n_of_int kind) pt f in mask_items step_mask (Some kind) o0 e0) in
               chk "res" (res_string ~kind o = post.res);
               chk "drops" (sorted_n evs.e_dropped = sorted_n post.dropped);
               chk "hashes_le" (Z.equal (z_of_n post.hashes) Z.zero);
@@ -605,7 +630,7 @@ let () =
                | Some g0 ->
                  (match bB_into_iter { bg = g0; bcur = pre.st.cur; bmax = pre.st.maxs; btb = pre.st.tb } (n_of_int kind) pt f with
                   | None -> chk "bsim" false; Buffer.add_string detail "  layer B: the owning iterator FAULTS on the observed graph\n"
-                  | Some (o', evs') -> chk "brefine" (o' = o && evs'.e_dropped = evs.e_dropped))
+                  | Some (o0, e0) -> let (o', evs') = mask_items step_mask (Some kind) o0 e0 in chk "brefine" (o' = o && evs'.e_dropped = evs.e_dropped))
                | None -> ());
               (match o with OItems l ->
                  List.iter (function Some ((k : key), (v : val0)) ->
